@@ -4,8 +4,10 @@ go 1.24.0
 
 require (
 	github.com/cloudflare/pint v0.0.0
+	github.com/google/go-github/v71 v71.0.0
 	github.com/prometheus/client_golang v1.22.0
 	github.com/prometheus/common v0.62.0
+	github.com/prometheus/prometheus v0.303.0
 )
 
 require (
@@ -20,7 +22,6 @@ require (
 	github.com/go-logr/logr v1.4.2 // indirect
 	github.com/go-logr/stdr v1.2.2 // indirect
 	github.com/google/go-cmp v0.7.0 // indirect
-	github.com/google/go-github/v71 v71.0.0 // indirect
 	github.com/google/go-querystring v1.1.0 // indirect
 	github.com/grafana/regexp v0.0.0-20240518133315-a468a5bfb3bc // indirect
 	github.com/hashicorp/go-cleanhttp v0.5.2 // indirect
@@ -34,7 +35,6 @@ require (
 	github.com/munnerz/goautoneg v0.0.0-20191010083416-a7dc8b61c822 // indirect
 	github.com/prometheus/client_model v0.6.2 // indirect
 	github.com/prometheus/procfs v0.15.1 // indirect
-	github.com/prometheus/prometheus v0.303.0 // indirect
 	github.com/prymitive/current v0.1.1 // indirect
 	github.com/zclconf/go-cty v1.16.2 // indirect
 	gitlab.com/gitlab-org/api/client-go v0.127.0 // indirect
